@@ -52,6 +52,9 @@ def parse_script(spec: Iterable[Any]) -> list[Outcome]:
             continue
         head, _, sl = s.partition('~')
         sleep = float(sl) if sl else 0.0
+        if head == 'ok+stamp':     # the invocation's number as a field + a counter bump as a transformation, both through `patch`
+            out.append(Outcome('ok', sleep=sleep, stamp=True))
+            continue
         if head == 'ok':
             out.append(Outcome('ok', sleep=sleep))
         elif head == 'perm':
